@@ -101,6 +101,20 @@ reg(Spec("C03", "c03_alu.cpp", needs=("shim", "optable"),
                       "irregular forms modelled as the source documents them: and #imm8 (bits 8-15 kept), 16-bit movr (carry from bit 16, fv cleared)",
                       "out of model (left to C01): clr/clrr register pairing, movr through ar words, alm with 40-bit operand for ops other than or/and/xor/add/cmp/sub"]))
 
+reg(Spec("C04", "c04_mulshift.cpp", needs=("shim", "optable"),
+         cases={"quick": 40000, "thorough": 700000},
+         rule="first word drawn from the multiply / MAC / product-read / product-sum / shift / rotate / normalize / exponent "
+              "families (register and [Rn] forms), stratified by (form, operation); state expanded from a rapidcheck-generated "
+              "64-bit value: boundary-biased factors and 33-bit products, ps0/ps1 and hwm in 0..3, s in {0,1}, sata in {0,1}, "
+              "sv from {-48..48, +-39/40/41, uniform}; expected state built by the independent exact-arithmetic model; compared on "
+              "every field + no memory write. Non-trivial = some field other than pc changed; distinct by hash(opcode, second word, state).",
+         assumptions=["addressing pinned to the linear case; no active loop, no pending interrupt",
+                      "carry / overflow / latched overflow of two-product sums (app, mma, sqr_sqr_add3, sqr_mpysu_add3a) are not compared: the "
+                      "property does not define how two partial carries combine",
+                      "|shift amount| == 40: fc0 is not compared (statement: last bit shifted out; hardware-validated code: 0 for left/logical)",
+                      "a byte selected by the half-word mode is a non-negative 8-bit factor",
+                      "out of model (left to C01/C20): forms addressed through ar/arp words, push/pop Px (C08), CodebookSearch, vtr side effects"]))
+
 # Properties not (yet) claimed. Kept current by hand; every id in properties.jsonl is either in SPECS or here.
 _PENDING = "check not built yet in this round; planned with property-based testing per DESIGN.md"
 NOT_APPLICABLE = [{"property_id": "C%02d" % i, "reason": _PENDING} for i in range(1, 21) if "C%02d" % i not in SPECS]
